@@ -187,6 +187,11 @@ class Gen:
             if any(isinstance(vt, tuple) and vt[0] == "fn" and vt[2] == want for _, vt in vis):
                 opts.append(("call", 7))
         kind = self.weighted(opts)
+        if depth < 4 and self.chance(0.07):
+            # a block around the chain: redundant (spliced by simplify.rs) when the chain binds
+            # nothing, a real scope otherwise
+            self.note("wrapped_in_block")
+            return "{ " + self.expr(want, list(env), flow, depth + 1) + " }"
         if kind == "lit":
             return self.lit(want) if not (isinstance(want, tuple) and want[0] == "fn") else self.fn_literal(want, env, depth)
         if kind == "var":
@@ -494,7 +499,12 @@ class Gen:
             x = self.var()
             steps.append("%s = %s" % (x, self.expr(t, env, flow if not steps else None, depth + 1)))
             env.insert(0, (x, t))
-        steps.append(self.expr(want, env, flow if not steps else None, depth + 1))
+        last = self.expr(want, env, flow if not steps else None, depth + 1)
+        if depth < 4 and self.chance(0.12):
+            # a multi-step block as a step of its own (lifted by simplify.rs when nothing binds)
+            self.note("multi_step_block")
+            last = "{ %s, %s }" % (self.expr(self.rand_type(), list(env), flow if not steps else None, depth + 2), last)
+        steps.append(last)
         return ", ".join(steps)
 
     def match_then(self, want, env, flow, depth):
@@ -679,3 +689,93 @@ def generate(rng, stats=None):
         except (IndexError, ValueError, KeyError):
             g = Gen(rng, stats)
     return "[]"
+
+
+# ------------------------------------------------------------------------------------------------
+# Programs of the fragment mirrored by coq/theories/lang/LangCompile.v (compile slice): integer
+# literals, tuples without spreads, positional access on the flow / on identifiers, bare binders,
+# chains, sequences (with nil short-circuits), redundant and liftable blocks (removed by
+# normalize_blocks before code generation).  A shape is "int" or ("tup", name, [(label, shape)..]).
+def fragment_program(rng, stats=None):
+    fresh = [0]
+
+    def note(k):
+        if stats is not None:
+            stats[k] = stats.get(k, 0) + 1
+
+    def var():
+        fresh[0] += 1
+        return "v%d" % fresh[0]
+
+    def rand_shape(d=0):
+        if d >= 2 or rng.random() < 0.5:
+            return "int"
+        n = rng.randint(0, 3)
+        name = rng.choice(NAMES + [None, None, None])
+        if name is None and n == 0:
+            n = 1          # no nil-shaped values: nil-ness is static in this fragment, and the real
+                           # compiler drops the steps after a statically-nil step (not mirrored)
+        labelled = rng.random() < 0.4
+        labels = rng.sample(LABELS, n) if labelled else [None] * n
+        return ("tup", name, [(l, rand_shape(d + 1)) for l in labels])
+
+    def term_for(shape, env, flow, d, nobind=False):
+        """one chain (space-separated terms) producing `shape`; `nobind`: inside a block that
+        must stay binding-free (so that normalize_blocks removes it)"""
+        opts = ["lit"]
+        vs = [x for x, t in env if t == shape]
+        if vs: opts += ["var", "var"]
+        if flow == shape: opts += ["ripple", "ripple"]
+        if isinstance(flow, tuple) and any(t == shape for _, t in flow[2]): opts += ["ripple_idx", "ripple_idx"]
+        holders = [(x, t) for x, t in env if isinstance(t, tuple) and any(ft == shape for _, ft in t[2])]
+        if holders: opts.append("var_idx")
+        if d < 3: opts += ["pipe", "block"] + ([] if nobind else ["bind_then"])
+        k = rng.choice(opts)
+        if k == "lit":
+            if shape == "int":
+                return str(rng.choice([0, 1, 2, 7, -3, 42, 10**12]))
+            inner = ", ".join((l + ": " if l else "") + term_for(t, env, flow, d + 1, nobind) for l, t in shape[2])
+            if shape[1] and not shape[2]:
+                return shape[1] + "[]" if rng.random() < 0.3 else shape[1]
+            return (shape[1] or "") + "[" + inner + "]"
+        if k == "var":
+            return rng.choice(vs)
+        if k == "ripple":
+            note("ripple"); return "~"
+        if k == "ripple_idx":
+            i = rng.choice([i for i, (_, t) in enumerate(flow[2]) if t == shape])
+            note("positional_access"); return rng.choice(["~.%d", ".%d"]) % i
+        if k == "var_idx":
+            x, t = rng.choice(holders)
+            i = rng.choice([i for i, (_, ft) in enumerate(t[2]) if ft == shape])
+            note("positional_access"); return "%s.%d" % (x, i)
+        if k == "pipe":
+            mid = rand_shape()
+            return term_for(mid, env, flow, d + 1, nobind) + " " + term_for(shape, env, mid, d + 1, nobind)
+        if k == "block":
+            note("redundant_block")
+            return "{ " + term_for(shape, env, flow, d + 1, True) + " }"
+        # a bare binder in the chain, then the value rebuilt from it
+        x = var()
+        note("in_chain_binder")
+        src = term_for(shape, env, flow, d + 1)
+        env.append((x, shape))
+        return "%s =%s %s" % (src, x, x)
+
+    steps, env = [], []
+    for _ in range(rng.randint(1, 6)):
+        sh = rand_shape()
+        r = rng.random()
+        if r < 0.45:
+            x = var()
+            steps.append("%s = %s" % (x, term_for(sh, env, None, 0)))
+            env.append((x, sh))
+        elif r < 0.7:
+            note("liftable_block")
+            steps.append("{ %s, %s }" % (term_for(rand_shape(), env, None, 1, True), term_for(sh, env, None, 1, True)))
+        else:
+            steps.append(term_for(sh, env, None, 0))
+    if rng.random() < 0.15:
+        steps.append("[]")             # a final nil step
+        note("final_nil_step")
+    return ", ".join(steps)
